@@ -481,6 +481,8 @@ def meshgrid(vectors):
         list[TT]: the resulting meshgrid.
     """
 
+    if any(len(v.shape) != 1 for v in vectors):
+        raise InvalidArguments('The vectors must be one dimensional.')
     Xs = []
     dtype = vectors[0].dtype
     for i in range(len(vectors)):
